@@ -35,6 +35,26 @@ inductive Cell where
 
 def I64.ofInt (i : Int) : I64 := BitVec.ofInt 64 i
 
+/-- A value the host hands to the program (a singleton's initial value, `LoadSingleton`): a
+tree, not yet placed in the heap. Floats travel as their IEEE-754 bits. -/
+inductive HostVal where
+  | null
+  | int (v : Int)
+  | float (bits : Nat)
+  | bool (b : Bool)
+  | str (s : String)
+  | none
+  | some (v : HostVal)
+  | range (a b : Int) (incl : Bool)
+  | list (xs : List HostVal)
+  | obj (fields : List (String × HostVal))
+  | anyobj (fields : List (String × HostVal))
+  deriving Repr, Inhabited
+
+/-- The singleton values the host provides, by singleton name (`$Name`); a singleton that is not
+listed is initialised with the zero value of its type. -/
+abbrev HostSingletons := List (String × HostVal)
+
 /-! ## Integer operators (Go `int64`) -/
 
 /-- `<<`: shift counts ≥ 64 give 0 (Go semantics for a non-negative count). -/
